@@ -18,6 +18,9 @@ CHECKS = {
  "C12": ("StreamLab", "PBT: independent recount of generated normalised streams vs Summarize counters, getters and the parsed-back summary text, with and without Repeat",
          "Counters, scenario classification, replay-insensitivity and the single summary write compared with an independent recount for generated streams covering every outcome path. Known findings D2/D5 excluded by construction and counted.",
          "Aborted retry chains unconstrained (reading R2).", "6/C12"),
+ "C14": ("StreamLab", "PBT with parse-back: output of Normalize<Basic|Libtest|Json|JUnit> for generated streams is parsed by hand-written line / RFC 8259 JSON / XML 1.0 parsers into fact multisets and compared with the stream's facts in both directions; well-formedness, started/result pairing and suite totals checked",
+         "Every executed step, failed hook and parser error appears exactly once with the right status and message, nothing else appears, documents are well-formed and totals agree with entries, for generated streams with decorated names, path-less features, same-named scenarios, retries, hook failures and reporter options. Known finding D7 (JUnit drops the output of skipped testcases) is reported as KNOWN-FINDING.",
+         "Message identity is checked through generated unique tokens; libtest totals follow reading R4.", "6/C14"),
  "C13": ("StreamLab", "PBT with a reference interpreter of 18 compiled writer nestings (FailOnSkipped/Repeat/Tee/Or/discard) over recorder leaves; arbitrary (also non-contract) streams; stats algebra checked with arbitrary leaf stats",
          "Every recorder leaf's exact event/write sequence and the combined statistics equal the reference interpreter's prediction for generated streams and all zoo nestings.",
          "Nestings are a fixed zoo of 18 type-checking compositions.", "6/C13"),
